@@ -300,3 +300,64 @@ Example C15b_ex_magic_flips :
       | None => true | Some _ => false end) [1; 128; 255])
     (seq (length ex_file - 8) 8) = true.
 Proof. exact ex_magic_flips. Qed.
+
+(** ** C15c — the type byte of a log fragment is not covered by its checksum: since the repair of
+    D19 a changed type byte is still noticed everywhere but in the last fragment of the file,
+    because the reader counts every fragment that its sequencing rules drop and manifest recovery
+    rejects a file with dropped fragments *)
+From RainVerif.model Require Import Key Table TableSpec Version Lsm DbSpec Codec WalModel Recover.
+From RainVerif.proofs Require Import LogProofs LogXProofs LogTypeFlip ManifestFlip.
+Open Scope N_scope.
+
+Theorem C15c_written_log_well_sequenced : forall f recs boff, logfile f recs boff ->
+  exists its, f = bytes_of crc32c its /\ layout_ok BLOCK_SIZE_BYTES HEADER_LENGTH_BYTES 0 its /\
+              wellseq false its = true /\
+              map fst (asm HEADER_LENGTH_BYTES 0 false [] its) = recs.
+Proof. exact logfile_wellseq. Qed.
+Print Assumptions C15c_written_log_well_sequenced.
+
+Theorem C15c_type_flip_detected : forall its1 n t d its2 t',
+  layout_ok BLOCK_SIZE_BYTES HEADER_LENGTH_BYTES 0 (its1 ++ It n t d :: its2) ->
+  wellseq false (its1 ++ It n t d :: its2) = true ->
+  its2 <> [] -> t' <= 3 -> t' <> t ->
+  0 < rx_skipped (log_read_all_x (bytes_of crc32c (its1 ++ It n t' d :: its2))) /\
+  rx_panic (log_read_all_x (bytes_of crc32c (its1 ++ It n t' d :: its2))) = false.
+Proof. exact log_type_flip_detected. Qed.
+Print Assumptions C15c_type_flip_detected.
+
+Theorem C15c_type_byte_flip_detected : forall f recs boff, logfile f recs boff ->
+  exists its, f = bytes_of crc32c its /\ layout_ok BLOCK_SIZE_BYTES HEADER_LENGTH_BYTES 0 its /\
+    wellseq false its = true /\
+    forall its1 n t d its2 t',
+      its = its1 ++ It n t d :: its2 -> its2 <> [] -> t' <= 3 -> t' <> t ->
+      let k := N.to_nat (size HEADER_LENGTH_BYTES its1 + n + 6) in
+      nth k f 0 = t /\
+      0 < rx_skipped (log_read_all_x (set_byte k t' f)) /\
+      rx_panic (log_read_all_x (set_byte k t' f)) = false.
+Proof. exact logfile_type_byte_flip. Qed.
+Print Assumptions C15c_type_byte_flip_detected.
+
+Theorem C15c_manifest_with_dropped_fragment_rejected : forall img c n file,
+  i_current img = Some c -> parse_current c = Some n ->
+  lookupN n (i_manifests img) = Some file ->
+  0 < rx_skipped (log_read_all_x file) ->
+  exists e, recover_image img = inr e.
+Proof. exact recover_image_skipped. Qed.
+Print Assumptions C15c_manifest_with_dropped_fragment_rejected.
+
+Theorem C15c_manifest_type_byte_flip_rejected : forall f recs boff, logfile f recs boff ->
+  exists its, f = bytes_of crc32c its /\
+    forall its1 n t d its2 t' img c m,
+      its = its1 ++ It n t d :: its2 -> its2 <> [] -> t' <= 3 -> t' <> t ->
+      let k := N.to_nat (size HEADER_LENGTH_BYTES its1 + n + 6) in
+      i_current img = Some c -> parse_current c = Some m ->
+      lookupN m (i_manifests img) = Some (set_byte k t' f) ->
+      nth k f 0 = t /\ exists e, recover_image img = inr e.
+Proof. exact manifest_type_byte_flip_rejected. Qed.
+Print Assumptions C15c_manifest_type_byte_flip_rejected.
+
+(** the exception is real: the last fragment (here Full -> First) *)
+Example C15c_ex_last_fragment_flip_not_detected :
+  rx_skipped (log_read_all_x (set_byte 25 1 (fst (log_append_all 0 [[1; 2; 3]; [4; 5]; [6]])))) = 0 /\
+  rx_skipped (log_read_all_x (set_byte 16 2 (fst (log_append_all 0 [[1; 2; 3]; [4; 5]; [6]])))) = 1.
+Proof. vm_compute. split; reflexivity. Qed.
